@@ -1,0 +1,158 @@
+//go:build verif
+
+package url
+
+// Verification hooks (build tag "verif"). Add-only: nothing in this file is referenced by the
+// library itself, and with the tag off the file is not compiled.
+
+import (
+	"fmt"
+	"sort"
+	"strings"
+)
+
+// VerifState is a read-only copy of the internal URL record.
+type VerifState struct {
+	Scheme            string
+	Username          string
+	Password          string
+	HasHost           bool
+	Host              string
+	HasPort           bool
+	Port              string
+	DecodedPort       int
+	Opaque            bool
+	Path              []string
+	PathNil           bool
+	HasQuery          bool
+	Query             string
+	HasFragment       bool
+	Fragment          string
+	IsIPv4            bool
+	IsIPv6            bool
+	HasSearchParams   bool        // searchParams field is allocated
+	ParamsOwnerIsSelf bool        // searchParams.url == this URL
+	Params            [][2]string // the parameter list as stored (no write-through side effect)
+	NValidationErrors int
+}
+
+// VerifSnapshot returns the internal record without mutating anything
+// (SearchParams() allocates and Iterate() writes through, so the public API cannot do this).
+func (u *Url) VerifSnapshot() VerifState {
+	s := VerifState{
+		Scheme:            u.scheme,
+		Username:          u.username,
+		Password:          u.password,
+		DecodedPort:       u.decodedPort,
+		IsIPv4:            u.isIPv4,
+		IsIPv6:            u.isIPv6,
+		NValidationErrors: len(u.validationErrors),
+	}
+	if u.host != nil {
+		s.HasHost, s.Host = true, *u.host
+	}
+	if u.port != nil {
+		s.HasPort, s.Port = true, *u.port
+	}
+	if u.path == nil {
+		s.PathNil = true
+	} else {
+		s.Opaque = u.path.opaque
+		s.Path = append([]string{}, u.path.p...)
+	}
+	if u.query != nil {
+		s.HasQuery, s.Query = true, *u.query
+	}
+	if u.fragment != nil {
+		s.HasFragment, s.Fragment = true, *u.fragment
+	}
+	if u.searchParams != nil {
+		s.HasSearchParams = true
+		s.ParamsOwnerIsSelf = u.searchParams.url == u
+		s.Params = u.searchParams.VerifParams()
+	}
+	return s
+}
+
+// VerifParams returns the stored name/value pairs without calling update().
+func (s *SearchParams) VerifParams() [][2]string {
+	out := make([][2]string, 0, len(s.params))
+	for _, nvp := range s.params {
+		if nvp == nil {
+			out = append(out, [2]string{"\x00<nil>", ""})
+			continue
+		}
+		out = append(out, [2]string{nvp.Name, nvp.Value})
+	}
+	return out
+}
+
+// VerifOwner reports whether the SearchParams object writes through to u.
+func (s *SearchParams) VerifOwner(u *Url) bool { return s.url == u }
+
+// VerifTables returns a fingerprint of every package-level table the parser reads.
+func VerifTables() string {
+	var sb strings.Builder
+	sets := []struct {
+		n string
+		p *PercentEncodeSet
+	}{
+		{"C0", C0PercentEncodeSet}, {"C0OrSpace", C0OrSpacePercentEncodeSet}, {"Fragment", FragmentPercentEncodeSet},
+		{"Query", QueryPercentEncodeSet}, {"SpecialQuery", SpecialQueryPercentEncodeSet}, {"Path", PathPercentEncodeSet},
+		{"UserInfo", UserInfoPercentEncodeSet}, {"Host", HostPercentEncodeSet},
+	}
+	for _, s := range sets {
+		fmt.Fprintf(&sb, "%s:%d:%s;", s.n, s.p.allBelow, s.p.bs.String())
+	}
+	bits := []struct {
+		n string
+		b interface{ String() string }
+	}{
+		{"TabNl", ASCIITabOrNewline}, {"Alpha", ASCIIAlpha}, {"Digit", ASCIIDigit}, {"Hex", ASCIIHexDigit},
+		{"Alnum", ASCIIAlphanumeric}, {"C0c", C0control}, {"C0cs", C0controlOrSpace}, {"FHost", ForbiddenHostCodePoint},
+		{"FDomain", ForbiddenDomainCodePoint}, {"SomeUrl", someURLCodePoints},
+	}
+	for _, b := range bits {
+		fmt.Fprintf(&sb, "%s:%s;", b.n, b.b.String())
+	}
+	keys := make([]string, 0, len(defaultSpecialSchemes))
+	for k := range defaultSpecialSchemes {
+		keys = append(keys, k)
+	}
+	sort.Strings(keys)
+	for _, k := range keys {
+		fmt.Fprintf(&sb, "%s=%s;", k, defaultSpecialSchemes[k])
+	}
+	return sb.String()
+}
+
+// VerifOptions returns a fingerprint of a parser's option record (for C14: options are immutable).
+func VerifOptions(p Parser) string {
+	pp, ok := p.(*parser)
+	if !ok {
+		return ""
+	}
+	o := pp.opts
+	var sb strings.Builder
+	fmt.Fprintf(&sb, "%v,%v,%v,%v,%v,%v,%v,%v,%v,%v;", o.reportValidationErrors, o.failOnValidationError, o.laxHostParsing,
+		o.collapseConsecutiveSlashes, o.acceptInvalidCodepoints, o.percentEncodeSinglePercentSign,
+		o.allowSettingPathForNonBaseUrl, o.skipWindowsDriveLetterNormalization, o.skipTrailingSlashNormalization,
+		o.skipEqualsForEmptySearchParamsValue)
+	for _, s := range []*PercentEncodeSet{o.pathPercentEncodeSet, o.specialQueryPercentEncodeSet, o.queryPercentEncodeSet,
+		o.specialFragmentPercentEncodeSet, o.fragmentPercentEncodeSet} {
+		if s == nil {
+			sb.WriteString("nil;")
+		} else {
+			fmt.Fprintf(&sb, "%d:%s;", s.allBelow, s.bs.String())
+		}
+	}
+	keys := make([]string, 0, len(o.specialSchemes))
+	for k := range o.specialSchemes {
+		keys = append(keys, k)
+	}
+	sort.Strings(keys)
+	for _, k := range keys {
+		fmt.Fprintf(&sb, "%s=%s;", k, o.specialSchemes[k])
+	}
+	return sb.String()
+}
